@@ -15,8 +15,9 @@ theorem boundary_values :
     ∧ (∃ c, Calendar.mkReforming 1830692 = .ok c)
     ∧ (∃ c, Calendar.mkReforming 2147439588 = .ok c)
     ∧ Calendar.mkReforming 2147439589 = .error .arithmetic
-    ∧ Calendar.mkReforming (-2147483648) = .error .invalidReformation := by
-  refine ⟨rfl, ⟨_, rfl⟩, ⟨_, rfl⟩, rfl, rfl⟩
+    ∧ Calendar.mkReforming (-2147483648) = .error .invalidReformation
+    ∧ Calendar.mkReforming (-2147483647) = .error .invalidReformation := by
+  refine ⟨rfl, ⟨_, rfl⟩, ⟨_, rfl⟩, rfl, rfl, rfl⟩
 
 /-- a constructed calendar reports the day it was built from, is reforming, not proleptic -/
 theorem reformation_roundtrip (r : Int) (c : Calendar) (h : Calendar.mkReforming r = .ok c) :
@@ -26,7 +27,7 @@ theorem reformation_roundtrip (r : Int) (c : Calendar) (h : Calendar.mkReforming
   · cases h
   · split at h
     · split at h
-      · cases h
+      · split at h <;> cases h
       · split at h
         · cases h
         · cases h; exact ⟨rfl, rfl, rfl⟩
